@@ -109,6 +109,7 @@ private:
   static bool isCritical(const Cell &c)
   {
     if (c[D_CFG] != CFG_OK) return true;     // every "TLS requested but not switched on" cell
+    if (c[D_SCEN] != SCEN_NORMAL) return true; // every close-during-handshake cell
     if (c[D_KIND] != K_OPENSSL) return true; // every plaintext / garbage cell
     bool canSetMin = c[D_ROLE] != R_HTTP_CLIENT && c[D_ROLE] != R_HTTP_SERVER;
     bool lowCeil = c[D_CEIL] < V12;
@@ -136,7 +137,8 @@ private:
     const std::vector<int> onoff{0, 1}, allVer{V10, V11, V12, V13}, allMin{MV_0, MV_10, MV_12, MV_13},
       allBy{BY_IP, BY_NAME}, allSc{SC_VALID, SC_SELFSIGNED, SC_EXPIRED, SC_WRONGNAME, SC_MISMATCH},
       // certificates the PEER presents to a verifying iora endpoint additionally come in two not-yet-valid forms
-      peerSc{SC_VALID, SC_SELFSIGNED, SC_EXPIRED, SC_WRONGNAME, SC_MISMATCH, SC_NOTYET, SC_NOTYET_FAR},
+      peerSc{SC_VALID, SC_SELFSIGNED, SC_EXPIRED, SC_WRONGNAME, SC_MISMATCH, SC_NOTYET, SC_NOTYET_FAR, SC_SAN_OTHER_CN,
+             SC_NOSAN_CN},
       trust5{T_RIGHT, T_WRONG, T_NONE, T_WRONG_SYS_RIGHT, T_SYS_RIGHT}, trust3{T_RIGHT, T_WRONG, T_NONE},
       cc3{CC_NONE, CC_VALID, CC_UNTRUSTED}, cc7{CC_NONE, CC_VALID, CC_UNTRUSTED, CC_EXPIRED, CC_SELFSIGNED, CC_NOTYET, CC_NOTYET_FAR},
       ca3{CA_RIGHT, CA_WRONG, CA_NONE}, raw{K_PLAINTEXT, K_GARBAGE};
@@ -146,45 +148,52 @@ private:
     // ---- iora client transport (connect / connectSync) vs OpenSSL server
     b = Block{"client/openssl", 40, {}};
     b.values = {std::vector<int>{R_CLIENT_ASYNC, R_CLIENT_SYNC}, one(K_OPENSSL), onoff, trust5, peerSc, onoff, cc3,
-                allVer, allMin, allBy, one(CA_RIGHT), one(CFG_OK)};
+                allVer, allMin, allBy, one(CA_RIGHT), one(CFG_OK), one(SCEN_NORMAL)};
     add(b);
     b = Block{"client/raw", 6, {}};
     b.values = {std::vector<int>{R_CLIENT_ASYNC, R_CLIENT_SYNC}, raw, onoff, trust3, one(SC_VALID), one(0),
-                one(CC_NONE), one(V13), allMin, allBy, one(CA_RIGHT), one(CFG_OK)};
+                one(CC_NONE), one(V13), allMin, allBy, one(CA_RIGHT), one(CFG_OK), one(SCEN_NORMAL)};
     add(b);
     // ---- iora server transport vs OpenSSL client
     b = Block{"server/openssl", 22, {}};
     b.values = {one(R_SERVER), one(K_OPENSSL), onoff, one(T_RIGHT), allSc, one(0), cc7, allVer, allMin, one(BY_IP), ca3,
-                one(CFG_OK)};
+                one(CFG_OK), one(SCEN_NORMAL)};
     add(b);
     b = Block{"server/raw", 4, {}};
     b.values = {one(R_SERVER), raw, onoff, one(T_RIGHT), one(SC_VALID), one(0), one(CC_NONE), one(V13), allMin,
-                one(BY_IP), ca3, one(CFG_OK)};
+                one(BY_IP), ca3, one(CFG_OK), one(SCEN_NORMAL)};
     add(b);
     // ---- HttpClient vs OpenSSL server speaking HTTP
     b = Block{"httpclient/openssl", 18, {}};
     b.values = {one(R_HTTP_CLIENT), one(K_OPENSSL), onoff, trust5, peerSc, onoff, cc3, allVer, one(MV_0), allBy,
-                one(CA_RIGHT), one(CFG_OK)};
+                one(CA_RIGHT), one(CFG_OK), one(SCEN_NORMAL)};
     add(b);
     b = Block{"httpclient/raw", 3, {}};
     b.values = {one(R_HTTP_CLIENT), raw, onoff, trust5, one(SC_VALID), one(0), one(CC_NONE), one(V13), one(MV_0),
-                allBy, one(CA_RIGHT), one(CFG_OK)};
+                allBy, one(CA_RIGHT), one(CFG_OK), one(SCEN_NORMAL)};
     add(b);
     // ---- HttpServer vs OpenSSL client speaking HTTP
     b = Block{"httpserver/openssl", 6, {}};
     b.values = {one(R_HTTP_SERVER), one(K_OPENSSL), onoff, one(T_RIGHT), allSc, one(0), cc7, allVer, one(MV_0),
-                one(BY_IP), ca3, one(CFG_OK)};
+                one(BY_IP), ca3, one(CFG_OK), one(SCEN_NORMAL)};
     add(b);
     b = Block{"httpserver/raw", 1, {}};
     b.values = {one(R_HTTP_SERVER), raw, onoff, one(T_RIGHT), one(SC_VALID), one(0), one(CC_NONE), one(V13),
-                one(MV_0), one(BY_IP), ca3, one(CFG_OK)};
+                one(MV_0), one(BY_IP), ca3, one(CFG_OK), one(SCEN_NORMAL)};
     add(b);
     // ---- a session requested with TLS (TlsMode::Client / TlsMode::Server passed to connect / addListener)
     //      on a transport whose TlsConfig is filled in but not switched on
     b = Block{"transport/tls-not-switched-on", 2, {}};
     b.values = {std::vector<int>{R_CLIENT_ASYNC, R_CLIENT_SYNC, R_SERVER}, std::vector<int>{K_OPENSSL, K_PLAINTEXT}, onoff,
                 one(T_RIGHT), one(SC_VALID), one(0), one(CC_VALID), one(V13), one(MV_0), one(BY_IP), one(CA_RIGHT),
-                std::vector<int>{CFG_NOT_ENABLED, CFG_NO_MODE}};
+                std::vector<int>{CFG_NOT_ENABLED, CFG_NO_MODE}, one(SCEN_NORMAL)};
+    add(b);
+    // ---- the application writes and closes while the handshake is still running (connect()+send()+close(), or a
+    //      listener whose onAccept sends and closes), against a peer that answers late (OpenSSL) or never (silent sink)
+    b = Block{"transport/close-during-handshake", 10, {}};
+    b.values = {std::vector<int>{R_CLIENT_ASYNC, R_SERVER}, std::vector<int>{K_OPENSSL, K_PLAINTEXT}, onoff, one(T_RIGHT),
+                one(SC_VALID), one(0), one(CC_VALID), std::vector<int>{V12, V13}, one(MV_0), one(BY_IP), one(CA_RIGHT),
+                one(CFG_OK), one(SCEN_CLOSE_IN_HANDSHAKE)};
     add(b);
 
     for (std::uint32_t i = 0; i < total; ++i)
@@ -197,8 +206,11 @@ private:
   }
 };
 
-std::string describeCell(std::uint32_t idx, const Cell &c, bool early, int garbageForm)
+std::string describeCell(std::uint32_t idx, const Ctx &x)
 {
+  const Cell &c = x.cell;
+  const bool early = x.early;
+  const int garbageForm = x.garbageForm;
   pbt::Fmt f;
   f << "cell#" << idx;
   for (int d = 0; d < D_COUNT; ++d)
@@ -207,10 +219,14 @@ std::string describeCell(std::uint32_t idx, const Cell &c, bool early, int garba
     if ((d == D_TRUST || d == D_PEERREQ || d == D_BY) && !client) continue;
     if (d == D_SRVCA && client) continue;
     if (d == D_CFG && c[d] == CFG_OK) continue;
+    if (d == D_SCEN && c[d] == SCEN_NORMAL) continue;
     f << " " << dimName(d) << "=" << valueName(d, c[d]);
   }
   f << " earlySend=" << (early ? 1 : 0);
   if (c[D_KIND] == K_GARBAGE) f << " garbageForm=" << garbageForm;
+  if (c[D_SCEN] == SCEN_CLOSE_IN_HANDSHAKE)
+    f << " burst=" << x.burst.size() << "x32B closeAfterUs=" << x.closeDelayUs << " peerAnswersAfterMs="
+      << (c[D_KIND] == K_OPENSSL ? std::to_string(x.peerDelayMs) : std::string("never"));
   return f;
 }
 
@@ -265,6 +281,10 @@ Verdict decide(const Cell &c)
       else if (sc == SC_EXPIRED) v.reason = "expired-server-certificate";
       else if (sc == SC_NOTYET || sc == SC_NOTYET_FAR) v.reason = "not-yet-valid-server-certificate";
       else if (sc == SC_WRONGNAME && c[D_BY] == BY_NAME) v.reason = "hostname-not-verified";
+      // dNSName SANs present and none of them is the host: not issued for that name, whatever the subject CN says
+      // (RFC 6125 6.4.4 / RFC 9525). HttpClient checks no name at all: same shape as the wrong-name certificate there.
+      else if (sc == SC_SAN_OTHER_CN && c[D_BY] == BY_NAME)
+        v.reason = c[D_ROLE] == R_HTTP_CLIENT ? "hostname-not-verified" : "hostname-matched-by-cn-despite-san-for-other-names";
       v.mustNotAdmit = !v.reason.empty();
     }
     if (!v.mustNotAdmit)
@@ -273,7 +293,8 @@ Verdict decide(const Cell &c)
       // client-certificate demand satisfiable
       bool versions = versionConst(c[D_CEIL]) >= std::max(minVersionConst(c[D_MINVER]), (int)TLS1_2_VERSION);
       bool peerHappy = c[D_PEERREQ] == 0 || c[D_CLICERT] == CC_VALID;
-      v.baseline = sc != SC_MISMATCH && versions && peerHappy && c[D_CFG] == CFG_OK;
+      v.baseline = sc != SC_MISMATCH && versions && peerHappy && c[D_CFG] == CFG_OK && c[D_SCEN] == SCEN_NORMAL &&
+                   sc != SC_SAN_OTHER_CN && sc != SC_NOSAN_CN;
     }
     return v;
   }
@@ -297,7 +318,7 @@ Verdict decide(const Cell &c)
     bool versions = versionConst(c[D_CEIL]) >= std::max(minVersionConst(c[D_MINVER]), (int)TLS1_2_VERSION);
     bool loadable = c[D_SRVCERT] == SC_VALID || c[D_SRVCERT] == SC_SELFSIGNED || c[D_SRVCERT] == SC_WRONGNAME;
     bool caOk = !verify || c[D_SRVCA] != CA_NONE;
-    v.baseline = versions && loadable && caOk && c[D_CFG] == CFG_OK;
+    v.baseline = versions && loadable && caOk && c[D_CFG] == CFG_OK && c[D_SCEN] == SCEN_NORMAL;
   }
   return v;
 }
@@ -399,6 +420,34 @@ void c07::runClientTransport(Ctx &x)
   const std::string host = c[D_BY] == BY_IP ? "127.0.0.1" : "localhost";
   SessionId sid = 0;
   bool haveSid = false;
+  if (c[D_SCEN] == SCEN_CLOSE_IN_HANDSHAKE)
+  {
+    // connect(), write, close - without waiting for anything. What was written may be sent
+    // encrypted (handshake done in time) or dropped, never in clear text.
+    auto cr = t->connect(host, port, TlsMode::Client);
+    if (cr.isOk())
+    {
+      sid = cr.value();
+      for (const std::string &m : x.burst) t->send(sid, m.data(), m.size());
+      if (x.closeDelayUs > 0) std::this_thread::sleep_for(std::chrono::microseconds(x.closeDelayUs));
+      t->close(sid);
+      x.obs.definite = ev.waitFor([&] { return ev.closed; }, kWait);
+    }
+    peer.waitFinished(3.0 + x.peerDelayMs / 1000.0); // let it read everything that was put on the wire
+    t->stop();
+    {
+      std::lock_guard<std::mutex> g(ev.mu);
+      x.obs.announced = ev.connected;
+      x.obs.delivered = !ev.dataIn.empty();
+      x.obs.appIn = ev.dataIn;
+      x.obs.closed = ev.closed;
+      x.obs.closeMsg = ev.closeMsg;
+    }
+    t.reset();
+    peer.stop();
+    x.peer = peer.result();
+    return;
+  }
   if (c[D_ROLE] == R_CLIENT_ASYNC)
   {
     auto cr = t->connect(host, port, TlsMode::Client);
@@ -506,10 +555,13 @@ void c07::runServerTransport(Ctx &x)
 
   auto t = Transport::tcp(cfg);
   Transport *tp = t.get(); // never capture the owning pointer in the transport's own callbacks
-  const bool early = x.early;
+  const bool scen = c[D_SCEN] == SCEN_CLOSE_IN_HANDSHAKE;
+  const bool early = x.early && !scen;
   const std::string earlyBytes = x.mk.early;
+  const std::vector<std::string> burst = x.burst;
+  const bool closeInCallback = scen && x.closeDelayUs == 0;
   t->onAccept(
-    [&ev, tp, early, earlyBytes](SessionId sid, const TransportAddress &peerAddr)
+    [&ev, tp, early, earlyBytes, burst, closeInCallback](SessionId sid, const TransportAddress &peerAddr)
     {
       {
         std::lock_guard<std::mutex> g(ev.mu);
@@ -518,6 +570,8 @@ void c07::runServerTransport(Ctx &x)
       }
       // a greeting written from onAccept precedes the handshake: it must be held back
       if (early) tp->send(sid, earlyBytes.data(), earlyBytes.size());
+      for (const std::string &m : burst) tp->send(sid, m.data(), m.size());
+      if (closeInCallback) tp->close(sid); // "send a notice and hang up" straight from onAccept
     });
   t->onConnect(
     [&ev](SessionId sid, const TransportAddress &)
@@ -580,6 +634,40 @@ void c07::runServerTransport(Ctx &x)
                             return s.second && pred(*s.second);
                           });
   };
+  if (scen)
+  {
+    // the application hangs up 0-5 ms after the accept, whatever the handshake is doing
+    bool accepted = waitFor([](const Sess &) { return true; }, kWait);
+    if (accepted && !closeInCallback)
+    {
+      std::this_thread::sleep_for(std::chrono::microseconds(x.closeDelayUs));
+      SessionId s0 = 0;
+      {
+        std::lock_guard<std::mutex> g(ev.mu);
+        s0 = find(peer.localPort()).first;
+      }
+      if (s0) t->close(s0);
+    }
+    x.obs.definite = accepted && waitFor([](const Sess &s) { return s.closed; }, kWait);
+    peer.waitFinished(3.0 + x.peerDelayMs / 1000.0); // let it read everything that was put on the wire
+    t->stop();
+    {
+      std::lock_guard<std::mutex> g(ev.mu);
+      auto s = find(peer.localPort());
+      if (s.second)
+      {
+        x.obs.announced = s.second->connected;
+        x.obs.delivered = !s.second->dataIn.empty();
+        x.obs.appIn = s.second->dataIn;
+        x.obs.closed = s.second->closed;
+        x.obs.closeMsg = s.second->closeMsg;
+      }
+    }
+    t.reset();
+    peer.stop();
+    x.peer = peer.result();
+    return;
+  }
   // terminal: the accepted session was closed, or it was announced / delivered data
   x.obs.definite = waitFor([](const Sess &s) { return s.closed || s.connected || !s.dataIn.empty(); }, kWait);
   bool announced = false, gotData = false;
@@ -646,7 +734,8 @@ void judge(Ctx &x, pbt::Case &c)
   const std::string fam = roleFamily(cell[D_ROLE]);
   const bool client = isClientRole(cell[D_ROLE]);
   // a distinct failure shape: TLS was requested per call, but the TlsConfig behind it is not switched on
-  const std::string shape = cell[D_CFG] == CFG_OK ? "" : "/tls-config-not-switched-on";
+  const std::string shape = cell[D_CFG] != CFG_OK ? "/tls-config-not-switched-on"
+                            : (cell[D_SCEN] == SCEN_CLOSE_IN_HANDSHAKE ? "/close-during-handshake" : "");
 
   pbt::Fmt seen;
   seen << "observed: startRefused=" << o.startRefused << " announced=" << o.announced << " delivered=" << o.delivered
@@ -663,6 +752,14 @@ void judge(Ctx &x, pbt::Case &c)
     const std::string *raw;
     const char *what;
   } needles[] = {{&x.mk.early, "bytes sent before the handshake completed"}, {&x.mk.ioraApp, "application bytes"}};
+  for (const std::string &m : x.burst)
+    if (contains(pr.wireIn, m))
+    {
+      c.fail("C07/" + fam + "/cleartext-on-wire" + shape,
+             "bytes the application wrote while the handshake was running went out in clear text when it closed the "
+             "session; " + obsText);
+      return;
+    }
   for (auto &n : needles)
   {
     bool hit = contains(pr.wireIn, *n.raw) || contains(pr.wireIn, hexOf(*n.raw));
@@ -717,6 +814,13 @@ void judge(Ctx &x, pbt::Case &c)
   std::string cls = o.startRefused ? "configuration refused at start" : (admitted ? "admitted" : "refused");
   c.label(std::string(v.mustNotAdmit ? "must-not-admit" : (v.baseline ? "baseline" : "free")) + " -> " + cls);
   if (v.mustNotAdmit) c.label("must-not-admit reason: " + v.reason);
+  if (cell[D_SRVCERT] == SC_NOSAN_CN && isClientRole(cell[D_ROLE]) && cell[D_VERIFY] == 1 && cell[D_BY] == BY_NAME &&
+      (cell[D_TRUST] == T_RIGHT || cell[D_TRUST] == T_SYS_RIGHT) && cell[D_CEIL] >= V12)
+    c.label(std::string("control (no verdict): CN-only certificate without SAN, by host name, ") + valueName(D_ROLE, cell[D_ROLE]) +
+            " -> " + cls);
+  if (cell[D_SCEN] == SCEN_CLOSE_IN_HANDSHAKE)
+    c.label(std::string("close-during-handshake: burst of ") + std::to_string(x.burst.size()) + ", peer " +
+            (cell[D_KIND] == K_OPENSSL ? "answers late" : "never answers") + (pr.handshakeDone ? ", handshake completed first" : ""));
   c.label(std::string("role ") + valueName(D_ROLE, cell[D_ROLE]) + " / peer " + valueName(D_KIND, cell[D_KIND]));
   if (admitted && pr.handshakeDone) c.label(std::string("admitted session version ") + c07::versionName(pr.version));
   if (cell[D_KIND] == K_OPENSSL && cell[D_CEIL] < V12 && !pr.handshakeDone && pr.tcpEstablished)
@@ -751,7 +855,14 @@ void runCell(std::uint32_t idx, pbt::Src &src, pbt::Case &c)
     x.garbageForm = (int)src.range(0, 3);
     x.blob = src.blob(200);
   }
-  c.describe(describeCell(idx, x.cell, x.early, x.garbageForm));
+  if (x.cell[D_SCEN] == SCEN_CLOSE_IN_HANDSHAKE)
+  {
+    int n = (int)src.range(0, 3);
+    for (int i = 0; i < n; ++i) x.burst.push_back(marker32(seed));
+    x.closeDelayUs = (int)src.range(0, 5000);
+    x.peerDelayMs = (int)src.range(0, 20);
+  }
+  c.describe(describeCell(idx, x));
   pbt::watchdog(90, "C07/case-did-not-finish");
   switch (x.cell[D_ROLE])
   {
@@ -1044,9 +1155,9 @@ struct FixedSrc : pbt::Src
 };
 
 Cell cellOf(int role, int kind, int verify, int trust, int srvCert, int peerReq, int cliCert, int ceil, int minVer, int by,
-            int srvCa, int cfg = CFG_OK)
+            int srvCa, int cfg = CFG_OK, int scen = SCEN_NORMAL)
 {
-  return Cell{role, kind, verify, trust, srvCert, peerReq, cliCert, ceil, minVer, by, srvCa, cfg};
+  return Cell{role, kind, verify, trust, srvCert, peerReq, cliCert, ceil, minVer, by, srvCa, cfg, scen};
 }
 
 // run fixed cells until the first verdict
@@ -1109,6 +1220,24 @@ PBT_REGRESSION(not_yet_valid_certificates_are_refused)
                cellOf(R_SERVER, K_OPENSSL, 1, T_RIGHT, SC_VALID, 0, CC_NOTYET_FAR, V12, MV_0, BY_IP, CA_RIGHT),
                cellOf(R_HTTP_CLIENT, K_OPENSSL, 1, T_RIGHT, SC_NOTYET, 0, CC_NONE, V13, MV_0, BY_IP, CA_RIGHT),
                cellOf(R_HTTP_SERVER, K_OPENSSL, 1, T_RIGHT, SC_VALID, 0, CC_NOTYET_FAR, V13, MV_0, BY_IP, CA_RIGHT)});
+}
+// connect()+send()+close() / onAccept: send()+close() while the handshake is still running: what was queued may be
+// dropped or sent inside TLS, never flushed raw by the close (FixedSrc: 3 markers, immediate close, silent / prompt peer)
+PBT_REGRESSION(close_during_handshake_never_flushes_clear_text)
+{
+  runFixed(c, {cellOf(R_CLIENT_ASYNC, K_PLAINTEXT, 0, T_RIGHT, SC_VALID, 0, CC_VALID, V13, MV_0, BY_IP, CA_RIGHT, CFG_OK, SCEN_CLOSE_IN_HANDSHAKE),
+               cellOf(R_SERVER, K_PLAINTEXT, 0, T_RIGHT, SC_VALID, 0, CC_VALID, V13, MV_0, BY_IP, CA_RIGHT, CFG_OK, SCEN_CLOSE_IN_HANDSHAKE),
+               cellOf(R_CLIENT_ASYNC, K_OPENSSL, 1, T_RIGHT, SC_VALID, 0, CC_VALID, V12, MV_0, BY_IP, CA_RIGHT, CFG_OK, SCEN_CLOSE_IN_HANDSHAKE),
+               cellOf(R_SERVER, K_OPENSSL, 1, T_RIGHT, SC_VALID, 0, CC_VALID, V13, MV_0, BY_IP, CA_RIGHT, CFG_OK, SCEN_CLOSE_IN_HANDSHAKE)});
+}
+// RFC 6125 / 9525: when the certificate carries dNSName SANs the subject CN is not a name source. A right-CA, valid
+// certificate with SAN = other hosts and CN = the connect name must be refused on a connection by host name.
+PBT_REGRESSION(cn_is_ignored_when_san_names_other_hosts)
+{
+  runFixed(c, {cellOf(R_CLIENT_ASYNC, K_OPENSSL, 1, T_RIGHT, SC_SAN_OTHER_CN, 0, CC_NONE, V13, MV_0, BY_NAME, CA_RIGHT),
+               cellOf(R_CLIENT_SYNC, K_OPENSSL, 1, T_RIGHT, SC_SAN_OTHER_CN, 0, CC_NONE, V12, MV_0, BY_NAME, CA_RIGHT),
+               // control, no verdict: CN-only certificate without any SAN
+               cellOf(R_CLIENT_ASYNC, K_OPENSSL, 1, T_RIGHT, SC_NOSAN_CN, 0, CC_NONE, V13, MV_0, BY_NAME, CA_RIGHT)});
 }
 // fixed points of the oracle that must hold on every tree (they pass before and after the fixes)
 PBT_REGRESSION(authentication_fixed_points)
